@@ -304,6 +304,18 @@ def grid_histories(ctx):
                     ctx.violation('after a history of operations on one grid, rotating it does not rearrange its current objects / is not undone by the inverse',
                                   {'history': list(hist), 'grid': cur})
                 batch.append(('grid_rot_history', [1, 12, o.value, *wire.egrid(cur)], lambda v=wire.cgrid(rg): v, lambda R: R.grid(), ('hrot', cur, o.value, len(hist)), True))
+                # a rotation is a NEW grid: whatever its receiver does with it (observation functions write Hidden into the rotated view they
+                # asked for) leaves the original and every later rotation of it alone
+                # (the FORWARD 'rotation' of the pinned code is the identity on the SAME rows, so this is asked for proper turns only)
+                if o is not Orientation.F and r.random() < 0.6:
+                    want = wire.cgrid(rg)
+                    q = (r.randrange(rg.shape.height), r.randrange(rg.shape.width))
+                    rg[P(q)] = wire.mkobj(gen.HIDDEN if hasattr(gen, 'HIDDEN') else (gen.TY['Hidden'], 0, 0, None))
+                    hist.append(f'the receiver overwrites cell {q} of the rotated grid')
+                    again = g * o
+                    if wire.cgrid(g) != cur or wire.cgrid(again) != want:
+                        ctx.violation(f'editing the grid returned by a rotation changed the original grid or its next rotation by {o.name}', {'history': list(hist), 'grid': cur})
+                        break
             elif op == 'swap':
                 p, q = (r.randrange(h), r.randrange(w)), (r.randrange(h), r.randrange(w))
                 hist.append(f'swap {p} {q}')
